@@ -56,14 +56,10 @@ def standard_worlds(backends=("slurm", "sge", "lsf"), wfname="fork"):
 
     out = []
     for be in backends:
-        w0 = CW.init_world(wfname, be, hashing=(be == "lsf"))
         seqs = [[], [("gwf", ["run"])], [("gwf", ["run", "B"])], [("gwf", ["run"]), ("env", "start", "A")], [("gwf", ["run"]), ("env", "cancel", "B")],
                 [("gwf", ["run", "B"]), ("gwf", ["run"])], [("gwf", ["run"]), ("modify", "src")]]
         for seq in seqs:
-            w = w0
-            for a in seq:
-                w, _ = CW.apply_action(w, a)
-            w.normalize()
+            w = CW.build(wfname, be, seq, hashing=(be == "lsf"))
             out.append((f"{wfname}/{be} after {seq}", w))
     return out
 
